@@ -31,6 +31,17 @@ fn alias_line(toks: &[&str]) -> String {
     dispatch_wty!(ty, go, seed, rest)
 }
 
+fn zig_line() -> String {
+    let mut parts: Vec<String> = vec![];
+    for which in 0..2 {
+        let (x, f, r) = rand_distr::verif_hooks::zig_tables(which);
+        let xs: Vec<String> = x.iter().map(|v| format!("{:016x}", v.to_bits())).collect();
+        let fs: Vec<String> = f.iter().map(|v| format!("{:016x}", v.to_bits())).collect();
+        parts.push(format!("{}|{}|{:016x}", xs.join(","), fs.join(","), r.to_bits()));
+    }
+    parts.join(";")
+}
+
 fn main() {
     std::panic::set_hook(Box::new(|_| {}));
     let stdin = std::io::stdin();
@@ -46,6 +57,7 @@ fn main() {
             "tree" => tree_line(&toks),
             "alias" => alias_line(&toks),
             "samp" => samp::line(&toks),
+            "zig" => zig_line(),
             "ping" => "pong".to_string(),
             other => format!("unknown:{}", other),
         };
